@@ -61,8 +61,9 @@ def roots(tier):
              "kitty-0.25": ["K", "B", "K"], "other+forced": ["K", "K", "B"]}
     out = []
 
-    def add(ident, size, layout, ov, depth, udepth=0, faults=False, **kw):
+    def add(ident, size, layout, ov, depth, udepth=0, faults=False, detached=False, **kw):
         out.append(dict(identity=ident, size=list(size), depth=depth, udepth=udepth, faults=faults,
+                        detached=detached,
                         scene=dict(layout=layout, slots=kw.pop("slots", slots[ident]), ov=ov, **kw)))
 
     s = (12, 8)
@@ -79,6 +80,9 @@ def roots(tier):
         add("konsole", s, "cols", ov_img, 2)
         add("konsole", s, "bare", ov_off, 2)
         add("other", s, "pile", ov_on, 2, faults=True)
+        # the screen has its own streams on a terminal that is not the active one (write_tty goes elsewhere)
+        add("kitty", s, "pile", ov_on, 2, detached=True)
+        add("konsole", s, "list", ov_off, 1, scroll=1, detached=True)
         add("kitty-0.25", s, "bcols", ov_off, 2)
         add("kitty-0.25", s, "pile", ov_on, 2)
         add("other+forced", s, "cols", ov_off, 2)
@@ -97,6 +101,9 @@ def roots(tier):
         add(ident, (20, 10), "pile", ov_on, 3)
         add(ident, (20, 10), "list", ov_off, 3, scroll=2, faults=True)
         add(ident, (20, 10), "bcols", ov_img, 3)
+    for ident in ("kitty", "konsole"):
+        add(ident, s, "pile", ov_on, 3, detached=True)
+        add(ident, s, "bcols", ov_off, 2, detached=True)
     for ident in ("kitty-0.25", "other+forced"):
         add(ident, s, "bcols", ov_off, 3, faults=True)
         add(ident, s, "cols", ov_img, 3)
@@ -490,7 +497,7 @@ def run(ctx):
     ctx.coverage["states"] = len(keys) + zstates
     ctx.coverage["transitions"] = transitions
     ctx.coverage["traces_validated_against_impl"] = transitions
-    ctx.coverage.update(roots=len(rts), root_scenes=[dict(identity=c["identity"], size=c["size"],
+    ctx.coverage.update(roots=len(rts), root_scenes=[dict(identity=c["identity"], size=c["size"], detached=c.get("detached", False),
                                                           layout=c["scene"]["layout"], depth=c["depth"]) for c in rts],
                         alphabet=[list(o) for o in alphabet(ctx.tier, "konsole")],
                         z_seeds=Z_SEEDS)
@@ -511,6 +518,9 @@ def run(ctx):
         "states are merged on (scene, widget z/disguise, class disguise state, allocator state); the canvases "
         "alive in urwid's CanvasCache are those of the last drawn scene, so merged states have equal futures",
         "text cells hidden under a placement are not compared",
+        "two devices: the screen's output stream and the active terminal device (write_tty) feed the same terminal "
+        "model, except in 'detached' roots where the screen lives on another terminal than the active one (bytes "
+        "written to the active terminal do not reach it; now=True ops are not issued there)",
         "faults (part F): one write of a redraw raises BlockingIOError(EAGAIN) and takes no bytes; the bracket clause "
         "is not judged when the refused bytes are the bracket's own BEGIN or END; after a lost write text cells are "
         "not compared until the next full repaint (urwid's own line cache is stale then)",
